@@ -176,14 +176,24 @@ func (c07Prop) Rule() string {
 }
 
 func (c07Prop) Phases(tier string) []PhaseCfg {
-	n := 40_000
+	n, m := 40_000, 3_000
 	if tier == "thorough" {
-		n = 4_000_000
+		n, m = 4_000_000, 200_000
 	}
-	return []PhaseCfg{{Name: "seeded", Count: n, P: map[string]int{"maxdepth": 4}}}
+	return []PhaseCfg{{Name: "seeded", Count: n, P: map[string]int{"maxdepth": 4}},
+		{Name: "scheduled-pairs", Count: m, P: map[string]int{"maxdepth": 3, "pair": 1}}}
 }
 
 func (c07Prop) Gen(t *Tape, ph *PhaseCfg) Case {
+	if ph.P["pair"] == 1 {
+		a := c07Prop{}.genOne(t, ph)
+		b := c07Prop{}.genOne(t, ph)
+		return &pairCase{A: a, B: b, Strategy: t.Draw(numStrats), tape: t}
+	}
+	return c07Prop{}.genOne(t, ph)
+}
+
+func (c07Prop) genOne(t *Tape, ph *PhaseCfg) *c07Case {
 	tc := genTree(t, TreeOpts{Depth: -1, MaxDepth: ph.P["maxdepth"], Policy: 0, CB: c07Callbacks})
 	c := &c07Case{Tree: tc, Kind: "valid", ExtraBroken: -1}
 	if t.Draw(4) != 0 {
@@ -251,9 +261,15 @@ func clip(s string, n int) string {
 }
 
 func (c07Prop) Exec(cc Case, st *Stats) *Violation {
-	c := cc.(*c07Case)
 	EnvState{}.Apply()
-	runs := runUnderPolicies(c.Tree, c.Argv, c.Stream)
+	if pc, ok := cc.(*pairCase); ok {
+		return execPair(pc, st, c07Verdict)
+	}
+	c := cc.(*c07Case)
+	return c07Verdict(c, runUnderPolicies(c.Tree, c.Argv, c.Stream), st)
+}
+
+func c07Verdict(c *c07Case, runs [3]policyRun, st *Stats) *Violation {
 	st.Evals++
 	tpl := c.Tree.Tpl[c.Level]
 	st.Count("kind." + c.Kind)
@@ -346,14 +362,24 @@ func (c14Prop) Rule() string {
 }
 
 func (c14Prop) Phases(tier string) []PhaseCfg {
-	n := 40_000
+	n, m := 40_000, 3_000
 	if tier == "thorough" {
-		n = 4_000_000
+		n, m = 4_000_000, 200_000
 	}
-	return []PhaseCfg{{Name: "seeded", Count: n, P: map[string]int{"maxdepth": 4}}}
+	return []PhaseCfg{{Name: "seeded", Count: n, P: map[string]int{"maxdepth": 4}},
+		{Name: "scheduled-pairs", Count: m, P: map[string]int{"maxdepth": 3, "pair": 1}}}
 }
 
 func (c14Prop) Gen(t *Tape, ph *PhaseCfg) Case {
+	if ph.P["pair"] == 1 {
+		a := c14Prop{}.genOne(t, ph)
+		b := c14Prop{}.genOne(t, ph)
+		return &pairCase{A: a, B: b, Strategy: t.Draw(numStrats), tape: t}
+	}
+	return c14Prop{}.genOne(t, ph)
+}
+
+func (c14Prop) genOne(t *Tape, ph *PhaseCfg) *c07Case {
 	kind := []string{"help", "help", "help", "help-as-data", "version", "valid"}[t.Draw(6)]
 	opts := TreeOpts{Depth: -1, MaxDepth: ph.P["maxdepth"], Policy: 0, CB: c07Callbacks}
 	tc := genTree(t, opts)
@@ -419,9 +445,15 @@ func (c14Prop) Gen(t *Tape, ph *PhaseCfg) Case {
 }
 
 func (c14Prop) Exec(cc Case, st *Stats) *Violation {
-	c := cc.(*c07Case)
 	EnvState{}.Apply()
-	runs := runUnderPolicies(c.Tree, c.Argv, c.Stream)
+	if pc, ok := cc.(*pairCase); ok {
+		return execPair(pc, st, c14Verdict)
+	}
+	c := cc.(*c07Case)
+	return c14Verdict(c, runUnderPolicies(c.Tree, c.Argv, c.Stream), st)
+}
+
+func c14Verdict(c *c07Case, runs [3]policyRun, st *Stats) *Violation {
 	st.Evals++
 	st.Count("kind." + c.Kind)
 	st.Count("stream." + []string{"healthy", "closed", "fail_after", "short"}[c.Stream.Kind])
@@ -504,6 +536,60 @@ func (c14Prop) Exec(cc Case, st *Stats) *Violation {
 		if ld := c.Tree.Path[c.Level].LongDesc; ld != "" && !strings.Contains(out, ld) {
 			return &Violation{Clause: "help-long", Detail: pn + ": --help/-h must print the long description when set", Expected: ld, Observed: obs}
 		}
+	}
+	return nil
+}
+
+// ---------------------------------------------------------------------------
+// Scheduled pairs: two cases run as concurrent simulated processes under the cooperative
+// scheduler (one world per error policy), then each is judged by the same oracle. This is where
+// state shared between applications inside the help / rejection paths would surface.
+
+type pairCase struct {
+	A, B     *c07Case
+	Strategy int
+	tape     *Tape
+}
+
+func (pc *pairCase) Describe() interface{} {
+	return map[string]interface{}{"scheduled_pair": []interface{}{pc.A.Describe(), pc.B.Describe()}, "strategy": stratNames[pc.Strategy]}
+}
+
+func execPair(pc *pairCase, st *Stats, verdict func(*c07Case, [3]policyRun, *Stats) *Violation) *Violation {
+	var runsA, runsB [3]policyRun
+	cases := []*c07Case{pc.A, pc.B}
+	for k, pol := range policies {
+		procs := make([]*Proc, 2)
+		insts := make([]*Instance, 2)
+		bodies := make([]func() error, 2)
+		for i, c := range cases {
+			i, c := i, c
+			app := *c.Tree.App
+			app.Policy = pol
+			procs[i] = NewProc(i)
+			procs[i].Stream = c.Stream
+			bodies[i] = func() error {
+				insts[i] = Build(&app, procs[i])
+				return insts[i].Cli.Run(c.Argv)
+			}
+		}
+		s := RunScheduled(pc.tape, pc.Strategy, procs, bodies)
+		st.Add("fired.context_switches", int64(s.Switches))
+		st.Count("strategy." + stratNames[s.Strategy])
+		if s.Deadlock {
+			return &Violation{Clause: "concurrent-run-finishes", Detail: "two applications run together did not both finish", Observed: s.DescribeGrants(60)}
+		}
+		runsA[k] = policyRun{procs[0], insts[0]}
+		runsB[k] = policyRun{procs[1], insts[1]}
+	}
+	st.Count("scheduled_pairs")
+	if v := verdict(pc.A, runsA, st); v != nil {
+		v.Detail = "(run together with another application under the scheduler) " + v.Detail
+		return v
+	}
+	if v := verdict(pc.B, runsB, st); v != nil {
+		v.Detail = "(run together with another application under the scheduler) " + v.Detail
+		return v
 	}
 	return nil
 }
